@@ -369,6 +369,22 @@ impl ZipOffsetBlobStore {
         })
     }
 
+    /// Install the content and offset index assembled by `ZipOffsetBlobStoreBuilder`.
+    /// `offsets` holds the start offset of every record plus the end of the content.
+    pub(crate) fn set_built_data(
+        &mut self,
+        content: FastVec<u8>,
+        offsets: SortedUintVec,
+        uncompressed_size: usize,
+    ) {
+        self.stats.uncompressed_size = uncompressed_size;
+        self.stats.compressed_size = content.len();
+        self.stats.compressed_count = offsets.len().saturating_sub(1);
+        self.stats.compression_ratio = self.stats.ratio();
+        self.content = content;
+        self.offsets = offsets;
+    }
+
     /// Load ZipOffsetBlobStore from file
     pub fn load_from_file<P: AsRef<Path>>(path: P) -> Result<Self> {
         let mut file = std::fs::File::open(path)?;
@@ -458,7 +474,7 @@ impl ZipOffsetBlobStore {
         let header = FileHeader::new(
             file_size,
             self.stats.uncompressed_size as u64,
-            self.offsets.len() as u64,
+            self.len() as u64,
             content_bytes,
             offsets_bytes,
             &self.config,
@@ -500,7 +516,7 @@ impl ZipOffsetBlobStore {
         &self,
         id: RecordId,
     ) -> Result<Vec<u8>> {
-        if id as usize >= self.offsets.len() {
+        if id as usize >= self.len() {
             return Err(ZiporaError::invalid_data("record ID out of bounds"));
         }
 
@@ -769,7 +785,7 @@ impl BlobStore for ZipOffsetBlobStore {
     }
 
     fn contains(&self, id: RecordId) -> bool {
-        (id as usize) < self.offsets.len()
+        (id as usize) < self.len()
     }
 
     fn size(&self, id: RecordId) -> Result<Option<usize>> {
@@ -790,7 +806,8 @@ impl BlobStore for ZipOffsetBlobStore {
     }
 
     fn len(&self) -> usize {
-        self.offsets.len()
+        // The offset index has one entry per record plus the end of the content
+        self.offsets.len().saturating_sub(1)
     }
 
     fn flush(&mut self) -> Result<()> {
